@@ -73,6 +73,7 @@ type Interp struct {
 	nondetN   int
 	tape      []TapeEntry
 	pathShared map[string]int
+	syncMaps  map[*Cell]*MapObj
 }
 
 type intrinsic func(in *Interp, fr *frame, call *ssa.CallCommon, args []Value) Value
@@ -1912,6 +1913,14 @@ func (in *Interp) sharedWrite(c *Cell) {
 
 func (in *Interp) sharedWriteMap(m *MapObj) {
 	if !in.trackShared {
+		return
+	}
+	if m.kt == nil {
+		in.ex.shareWrites["sync.Map"]++
+		if in.pathShared == nil {
+			in.pathShared = map[string]int{}
+		}
+		in.pathShared["sync.Map"]++
 		return
 	}
 	in.ex.shareWrites["map:"+typeString(m.kt)+"->"+typeString(m.vt)]++
